@@ -465,6 +465,11 @@ def _func_call(fn, rng):
     if fn == "whiten":
         G = arr([3, 3], np.complex128)
         cov = G @ G.conj().T + 3 * np.eye(3)
+        if rng.random() < 0.4:
+            # uncorrelated channels of unequal noise power: an exactly diagonal covariance
+            cov = np.diag(rng.uniform(0.5, 4.0, 3)).astype(
+                np.complex128 if rng.random() < 0.5 else np.float64)
+            cls += "|diag-cov"
         return mr.util.whiten, (arr([3] + shape, np.complex128), cov), {}, (), cls
     if fn in ("tseg_off_res_b_ct", "apply_tseg"):
         dim = 6
